@@ -2,6 +2,7 @@ import AvroModel.Lemmas.ValidParsesRead
 import AvroModel.Lemmas.ValidParsesReg
 import AvroModel.Lemmas.ValidParsesCycle
 import AvroModel.Lemmas.ValidParsesConv
+import AvroModel.Lemmas.ValidParsesGas
 import AvroModel.Theorems.C08spec
 /-
 C07, totality at the level of the specification: every schema document that is valid
@@ -10,7 +11,7 @@ the specification designates.
 
 * `C07_valid_registers`     reading and registration succeed, nothing is left pending, the name
                             table is the list of the names the document defines;
-* `C07_valid_parses`        **every valid document is accepted** (within the depth limit, with
+* `C07_valid_parses`        **every valid document is accepted** (within the recursion limit of `serde_json`, with
                             enough registration fuel, no record unconditionally containing itself);
 * `C07_valid_parses_and_resolves`  and the canonical form of the parsed graph is the
                             specification's Parsing Canonical Form of the document
@@ -52,11 +53,11 @@ theorem validDoc_parts {j : Json} (hv : ValidDoc j = true) :
 /-- The stages before late resolution succeed on a valid document; no reference is left pending
     and the name table holds exactly the names the document defines. -/
 theorem C07_valid_registers (j : Json) (n : Nat) (hv : ValidDoc j = true)
-    (hd : parseDepth j ≤ 128) (hn : schemaSize j ≤ n) :
-    ∃ raw k st, rawOfJson 128 j = .ok raw ∧ registerNode (n + 2) raw none {} = .ok (k, st) ∧
+    (hn : schemaSize j ≤ n) :
+    ∃ raw k st, rawOfJson (rawGas j) j = .ok raw ∧ registerNode (n + 2) raw none {} = .ok (k, st) ∧
       st.unresolved = [] ∧ st.names.map (·.1) = ((definedNames j).map keyOf).reverse := by
   obtain ⟨hshape, hnf, hdist, hwt⟩ := validDoc_parts hv
-  obtain ⟨raw, hraw⟩ := rawOfJson_succeeds hwt hd
+  obtain ⟨raw, hraw⟩ := rawOfJson_succeeds hwt (parseDepth_le_rawGas j)
   obtain ⟨hcanon, hscan⟩ := raw_of_json_spec hraw none
   obtain ⟨c, hc⟩ := Option.isSome_iff_exists.mp hshape
   obtain ⟨D', hD'⟩ := Option.isSome_iff_exists.mp hnf
@@ -74,22 +75,22 @@ theorem C07_valid_registers (j : Json) (n : Nat) (hv : ValidDoc j = true)
 
 /-- Totality, with the cycle hypothesis stated on the resolved graph (as `C07_parse_succeeds`). -/
 theorem C07_valid_parses_graph (j : Json) (n : Nat) (hv : ValidDoc j = true)
-    (hd : parseDepth j ≤ 128) (hn : schemaSize j ≤ n) :
-    ∃ raw k st, rawOfJson 128 j = .ok raw ∧ registerNode (n + 2) raw none {} = .ok (k, st) ∧
+    (hd : jsonNesting j ≤ 127) (hn : schemaSize j ≤ n) :
+    ∃ raw k st, rawOfJson (rawGas j) j = .ok raw ∧ registerNode (n + 2) raw none {} = .ok (k, st) ∧
       st.unresolved = [] ∧
       ((¬ ∃ i, Relation.TransGen (recEdge (graphOf st)) i i) →
         parseJson j n = .ok (graphOf st)) := by
-  obtain ⟨raw, k, st, hraw, hreg, hun, -⟩ := C07_valid_registers j n hv hd hn
+  obtain ⟨raw, k, st, hraw, hreg, hun, -⟩ := C07_valid_registers j n hv hn
   refine ⟨raw, k, st, hraw, hreg, hun, fun hacyc => ?_⟩
-  exact C07_parse_succeeds j n raw k st hraw hreg (by simp [hun]) hacyc
+  exact C07_parse_succeeds j n raw k st hd hraw hreg (by simp [hun]) hacyc
 
-/-- **C07, totality**: a valid schema document, within the depth limit of the JSON reader, in
+/-- **C07, totality**: a valid schema document, within the recursion limit of `serde_json`, in
     which no record unconditionally contains itself, is accepted — for every registration fuel
     `n ≥ schemaSize j`.  The result is the node vector of the registration (`graphOf st`: there
     is nothing to resolve late, every reference was bound when it was met), and the name table
     binds exactly the fullnames the document defines. -/
 theorem C07_valid_parses (j : Json) (n : Nat) (hv : ValidDoc j = true)
-    (hd : parseDepth j ≤ 128) (hn : schemaSize j ≤ n) (hc : NoUnconditionalCycle j) :
+    (hd : jsonNesting j ≤ 127) (hn : schemaSize j ≤ n) (hc : NoUnconditionalCycle j) :
     ∃ S, parseJson j n = .ok S := by
   obtain ⟨raw, k, st, hraw, hreg, hun, hgraph⟩ := C07_valid_parses_graph j n hv hd hn
   obtain ⟨rank, hrank⟩ := hc
@@ -101,7 +102,7 @@ theorem C07_valid_parses (j : Json) (n : Nat) (hv : ValidDoc j = true)
     the node of that definition — is the specification's Parsing Canonical Form of the
     document. -/
 theorem C07_valid_parses_and_resolves (j : Json) (n : Nat) (hv : ValidDoc j = true)
-    (hd : parseDepth j ≤ 128) (hn : schemaSize j ≤ n) (hc : NoUnconditionalCycle j) :
+    (hd : jsonNesting j ≤ 127) (hn : schemaSize j ≤ n) (hc : NoUnconditionalCycle j) :
     ∃ S text, parseJson j n = .ok S ∧ parsingCanonicalForm j = some text ∧
       ∀ fuel, n + 2 ≤ fuel → canonicalForm S fuel = .ok text := by
   obtain ⟨S, hS⟩ := C07_valid_parses j n hv hd hn hc
@@ -111,7 +112,7 @@ theorem C07_valid_parses_and_resolves (j : Json) (n : Nat) (hv : ValidDoc j = tr
 /-- All hypotheses decidable: `ValidDoc`, the two size bounds, and the test
     `noUnconditionalCycleB` (which computes a ranking and checks it). -/
 theorem C07_valid_parses_checked (j : Json) (n : Nat) (hv : ValidDoc j = true)
-    (hd : parseDepth j ≤ 128) (hn : schemaSize j ≤ n) (hc : noUnconditionalCycleB j = true) :
+    (hd : jsonNesting j ≤ 127) (hn : schemaSize j ≤ n) (hc : noUnconditionalCycleB j = true) :
     ∃ S text, parseJson j n = .ok S ∧ parsingCanonicalForm j = some text ∧
       ∀ fuel, n + 2 ≤ fuel → canonicalForm S fuel = .ok text :=
   C07_valid_parses_and_resolves j n hv hd hn (noUnconditionalCycleB_sound hc)
@@ -129,7 +130,7 @@ theorem C07_parses_shape (j : Json) (n : Nat) (S : SchemaMut) (h : parseJson j n
     (and the name table of its registration is the list of the names it defines). -/
 theorem C07_parses_names_distinct (j : Json) (n : Nat) (S : SchemaMut)
     (h : parseJson j n = .ok S) : namesDistinct j = true := by
-  obtain ⟨raw, k, st, hraw, hreg, -, -, -⟩ := C07_parse_ok j n S h
+  obtain ⟨raw, k, st, -, hraw, hreg, -, -, -⟩ := C07_parse_ok j n S h
   have := (registered_defs_nodup hreg).1
   rw [← read_defs hraw none] at this
   exact nodupB_of_nodup this
@@ -146,7 +147,7 @@ structure Verdict where
   deriving DecidableEq, Repr
 
 def verdict (j : Json) (n : Nat) : Verdict :=
-  ⟨shape j, noForwardRefs j, namesDistinct j, wellTyped j, decide (parseDepth j ≤ 128),
+  ⟨shape j, noForwardRefs j, namesDistinct j, wellTyped j, decide (jsonNesting j ≤ 127),
     decide (schemaSize j ≤ n),
     match parseJson j n with
     | .ok _ => none
@@ -184,18 +185,31 @@ example : verdict (.arr [
 example : verdict (.obj [("type", .str "int"), ("type", .str "int")]) 100 =
     ⟨true, true, true, false, true, true, some .json⟩ := by decide +kernel
 
-/-- the depth limit: arrays nested 63 deep are accepted, 64 deep are rejected -/
+/-- the recursion limit of `serde_json`: array schemas nested 127 deep are accepted, 128 deep are
+    rejected (as the crate does) -/
 def nestedArrays : Nat → Json
   | 0 => .str "int"
   | n + 1 => .obj [("type", .str "array"), ("items", nestedArrays n)]
 
-example : ValidDoc (nestedArrays 63) = true ∧ parseDepth (nestedArrays 63) = 127 ∧
-    verdict (nestedArrays 63) 300 = ⟨true, true, true, true, true, true, none⟩ := by
+example : ValidDoc (nestedArrays 127) = true ∧ jsonNesting (nestedArrays 127) = 127 ∧
+    verdict (nestedArrays 127) 300 = ⟨true, true, true, true, true, true, none⟩ := by
   refine ⟨by decide +kernel, by decide +kernel, by decide +kernel⟩
 
-example : ValidDoc (nestedArrays 64) = true ∧ parseDepth (nestedArrays 64) = 129 ∧
-    verdict (nestedArrays 64) 300 = ⟨true, true, true, true, false, true, some .json⟩ := by
+example : ValidDoc (nestedArrays 128) = true ∧ jsonNesting (nestedArrays 128) = 128 ∧
+    verdict (nestedArrays 128) 300 = ⟨true, true, true, true, false, true, some .json⟩ := by
   refine ⟨by decide +kernel, by decide +kernel, by decide +kernel⟩
+
+/-- `serde_json` checks the depth also while it skips a member the schema reader ignores: a
+    perfectly good schema with a deeply nested `doc` is rejected. -/
+def deepValue : Nat → Json
+  | 0 => .null
+  | n + 1 => .arr [deepValue n]
+
+example : verdict (.obj [("type", .str "int"), ("doc", deepValue 126)]) 100 =
+      ⟨true, true, true, true, true, true, none⟩ ∧
+    verdict (.obj [("type", .str "int"), ("doc", deepValue 127)]) 100 =
+      ⟨true, true, true, true, false, true, some .json⟩ := by
+  refine ⟨by decide +kernel, by decide +kernel⟩
 
 /-- the registration fuel: `schemaSize (nestedArrays 2) = 6`; with 3 the model runs out of fuel
     (`panic` is the model's out-of-fuel, not an outcome of the crate) -/
@@ -261,25 +275,33 @@ example : verdict (.obj [("type", .str "record"), ("name", .str "record"),
         ("type", .arr [.str "null", .str "record"])]])]) 100 =
     ⟨true, true, true, false, true, true, some .custom⟩ := by decide +kernel
 
-/-- An artefact of the MODEL (not of the crate): `rawListOfJson` / `rawFieldsOfJson` spend one
-    unit of the depth fuel per element, so that a flat record with 126 fields exceeds the "depth"
-    128 and is rejected by `parseJson`, where `serde_json` counts nesting only.  `parseDepth`
-    is defined to follow the model; with 125 fields the document is accepted. -/
+/-- Width does not count (`serde_json` counts nesting only; an earlier version of the model
+    spent its depth fuel on list elements and rejected a flat record with 126 fields): a record
+    with 200 fields and a union with 200 branches are accepted. -/
 def wideRecord (n : Nat) : Json :=
   .obj [("type", .str "record"), ("name", .str "W"),
     ("fields", .arr ((List.range n).map fun i =>
       .obj [("name", .str ("f" ++ toString i)), ("type", .str "int")]))]
 
-example : verdict (wideRecord 125) 1000 = ⟨true, true, true, true, true, true, none⟩ ∧
-    verdict (wideRecord 126) 1000 = ⟨true, true, true, true, false, true, some .json⟩ := by
-  refine ⟨by decide +kernel, by decide +kernel⟩
+/-- (not a valid union for the specification — the crate does not check that — but a wide one) -/
+def wideUnion (n : Nat) : Json := .arr (List.replicate n (.str "int"))
+
+example : jsonNesting (wideRecord 200) = 3 := by decide +kernel
+
+example : verdict (wideRecord 200) 1000 = ⟨true, true, true, true, true, true, none⟩ := by
+  decide +kernel
+
+example : jsonNesting (wideUnion 200) = 1 := by decide +kernel
+
+example : verdict (wideUnion 200) 1000 = ⟨true, true, true, true, true, true, none⟩ := by
+  decide +kernel
 
 /-! ### non-vacuity -/
 
 /-- Namespaces inherited through an array, a union and a map, `"namespace": ""`, a dotted name
     overriding the `namespace` attribute, references by simple name / fullname / leading dot,
     logical types (`decimal` with precision, `timestamp-micros`), members in any order, `doc`. -/
-example : ValidDoc docNamespaces = true ∧ parseDepth docNamespaces = 13 ∧
+example : ValidDoc docNamespaces = true ∧ jsonNesting docNamespaces = 6 ∧
     schemaSize docNamespaces = 38 ∧ verdict docNamespaces 38 =
       ⟨true, true, true, true, true, true, none⟩ ∧
     definedNames docNamespaces =
